@@ -264,117 +264,121 @@ func init() {
 			}
 		}})
 
-	register(&Rule{ID: "S7", Min: 10, Text: "source symmetry: the effect of an operation on the document must not depend on who executes it. In every Operation.Execute, code that is control-dependent on the source parameter (directly, through NeedsReverse, or through a flag derived from it and passed into the model) may return ErrOperationSkipped, build or skip the reverse operation and read state, but may not call a mutator of the CRDT model or of Root (mutators are computed: functions that store through non-local pointers or update maps, transitively)",
-		Run: func(x *Ctx) {
-			mut := x.mutators()
-			x.C.Count("mutating functions of the CRDT model", len(mut))
-			if len(mut) < 100 {
-				x.C.Vacuous(x.id()+" mutators", len(mut), 100)
-			}
-			var names []string
-			ex := x.opExecutes()
-			for n := range ex {
-				names = append(names, n)
-			}
-			sort.Strings(names)
-			var analyse func(fn *ssa.Function, flag func(ssa.Value) bool, label string, depth int)
-			analyse = func(fn *ssa.Function, flag func(ssa.Value) bool, label string, depth int) {
-				dep := func(v ssa.Value) bool { return predicateOf(v, flag, 0) }
-				// blocks from which a success return is reachable (error exits are not effects on the document)
-				live := map[*ssa.BasicBlock]bool{}
-				for _, r := range prog.Returns(fn) {
-					last := len(r.Results) - 1
-					if last >= 0 && isErrorType(r.Results[last].Type()) && !prog.ReturnsNilError(r) {
-						continue
-					}
-					live[r.Block()] = true
+	s7 := func(id string, min int, only map[string]bool) {
+		register(&Rule{ID: id, Min: min, Text: "source symmetry: the effect of an operation on the document must not depend on who executes it. In every Operation.Execute, code that is control-dependent on the source parameter (directly, through NeedsReverse, or through a flag derived from it and passed into the model) may return ErrOperationSkipped, build or skip the reverse operation and read state, but may not call a mutator of the CRDT model or of Root (mutators are computed: functions that store through non-local pointers or update maps, transitively)",
+			Run: func(x *Ctx) {
+				mut := x.mutators()
+				x.C.Count("mutating functions of the CRDT model", len(mut))
+				if len(mut) < 100 {
+					x.C.Vacuous(x.id()+" mutators", len(mut), 100)
 				}
-				for changed := true; changed; {
-					changed = false
+				var names []string
+				ex := x.opExecutes()
+				for n := range ex {
+					names = append(names, n)
+				}
+				sort.Strings(names)
+				var analyse func(fn *ssa.Function, flag func(ssa.Value) bool, label string, depth int)
+				analyse = func(fn *ssa.Function, flag func(ssa.Value) bool, label string, depth int) {
+					dep := func(v ssa.Value) bool { return predicateOf(v, flag, 0) }
+					// blocks from which a success return is reachable (error exits are not effects on the document)
+					live := map[*ssa.BasicBlock]bool{}
+					for _, r := range prog.Returns(fn) {
+						last := len(r.Results) - 1
+						if last >= 0 && isErrorType(r.Results[last].Type()) && !prog.ReturnsNilError(r) {
+							continue
+						}
+						live[r.Block()] = true
+					}
+					for changed := true; changed; {
+						changed = false
+						for _, b := range fn.Blocks {
+							if live[b] {
+								continue
+							}
+							for _, s := range b.Succs {
+								if live[s] {
+									live[b] = true
+									changed = true
+								}
+							}
+						}
+					}
+					// regions control-dependent on the flag
+					region := map[*ssa.BasicBlock]string{}
+					nReg := 0
 					for _, b := range fn.Blocks {
-						if live[b] {
+						iff := prog.IfOf(b)
+						if iff == nil || !dep(iff.Cond) {
 							continue
 						}
-						for _, s := range b.Succs {
-							if live[s] {
-								live[b] = true
-								changed = true
+						nReg++
+						for i, s := range b.Succs {
+							if len(s.Preds) != 1 {
+								continue // a join, not a branch body
+							}
+							for _, d := range fn.Blocks {
+								if s.Dominates(d) {
+									region[d] = fmt.Sprintf("%s branch %d of the test at %s", label, i, x.P.InstrPos(iff))
+								}
+							}
+						}
+					}
+					bad := 0
+					for b, why := range region {
+						if !live[b] {
+							continue
+						}
+						for _, ins := range b.Instrs {
+							c, ok := ins.(ssa.CallInstruction)
+							if !ok {
+								continue
+							}
+							if m, callee := x.callMayMutate(c, mut); m {
+								bad++
+								x.fail(fmt.Sprintf("%s source-conditional-mutation callee=%s", label, callee), x.pos(c),
+									"a mutator of the model ("+callee+") runs only for some sources ("+why+"): the replica that performs the edit and the replicas that receive it end in different states")
+							}
+						}
+					}
+					if bad == 0 {
+						x.hold(label+" source-conditional-regions", x.fpos(fn), fmt.Sprintf("%d source-conditional region(s), no mutator in them", nReg))
+					}
+					// flags escaping into the model
+					if depth >= 2 {
+						return
+					}
+					for _, c := range prog.CallsIn(fn) {
+						callee := c.Common().StaticCallee()
+						if callee == nil || callee.Blocks == nil || !strings.HasSuffix(prog.PkgOf(callee), "/"+crdtPkg) {
+							continue
+						}
+						for i, a := range c.Common().Args {
+							if i >= len(callee.Params) {
+								continue
+							}
+							if b, ok := a.Type().Underlying().(*types.Basic); !ok || b.Kind() != types.Bool {
+								continue
+							}
+							if dep(a) {
+								pm := callee.Params[i]
+								analyse(callee, func(v ssa.Value) bool { return v == ssa.Value(pm) }, label+"→"+callee.Name()+"("+pm.Name()+")", depth+1)
 							}
 						}
 					}
 				}
-				// regions control-dependent on the flag
-				region := map[*ssa.BasicBlock]string{}
-				nReg := 0
-				for _, b := range fn.Blocks {
-					iff := prog.IfOf(b)
-					if iff == nil || !dep(iff.Cond) {
+				for _, n := range names {
+					fn := ex[n]
+					if len(fn.Params) < 3 || (only != nil && !only[n]) {
 						continue
 					}
-					nReg++
-					for i, s := range b.Succs {
-						if len(s.Preds) != 1 {
-							continue // a join, not a branch body
-						}
-						for _, d := range fn.Blocks {
-							if s.Dominates(d) {
-								region[d] = fmt.Sprintf("%s branch %d of the test at %s", label, i, x.P.InstrPos(iff))
-							}
-						}
-					}
+					src := fn.Params[2]
+					analyse(fn, func(v ssa.Value) bool { return v == ssa.Value(src) }, "op="+n, 0)
 				}
-				bad := 0
-				for b, why := range region {
-					if !live[b] {
-						continue
-					}
-					for _, ins := range b.Instrs {
-						c, ok := ins.(ssa.CallInstruction)
-						if !ok {
-							continue
-						}
-						if m, callee := x.callMayMutate(c, mut); m {
-							bad++
-							x.fail(fmt.Sprintf("%s source-conditional-mutation callee=%s", label, callee), x.pos(c),
-								"a mutator of the model ("+callee+") runs only for some sources ("+why+"): the replica that performs the edit and the replicas that receive it end in different states")
-						}
-					}
-				}
-				if bad == 0 {
-					x.hold(label+" source-conditional-regions", x.fpos(fn), fmt.Sprintf("%d source-conditional region(s), no mutator in them", nReg))
-				}
-				// flags escaping into the model
-				if depth >= 2 {
-					return
-				}
-				for _, c := range prog.CallsIn(fn) {
-					callee := c.Common().StaticCallee()
-					if callee == nil || callee.Blocks == nil || !strings.HasSuffix(prog.PkgOf(callee), "/"+crdtPkg) {
-						continue
-					}
-					for i, a := range c.Common().Args {
-						if i >= len(callee.Params) {
-							continue
-						}
-						if b, ok := a.Type().Underlying().(*types.Basic); !ok || b.Kind() != types.Bool {
-							continue
-						}
-						if dep(a) {
-							pm := callee.Params[i]
-							analyse(callee, func(v ssa.Value) bool { return v == ssa.Value(pm) }, label+"→"+callee.Name()+"("+pm.Name()+")", depth+1)
-						}
-					}
-				}
-			}
-			for _, n := range names {
-				fn := ex[n]
-				if len(fn.Params) < 3 {
-					continue
-				}
-				src := fn.Params[2]
-				analyse(fn, func(v ssa.Value) bool { return v == ssa.Value(src) }, "op="+n, 0)
-			}
-		}})
+			}})
+	}
+	s7("S7", 10, nil)
+	s7("S7.tree", 2, map[string]bool{"TreeEdit": true, "TreeStyle": true})
 
 	register(&Rule{ID: "REV", Min: 12, Text: "every operation kind yields a reverse: each Operation.Execute has a success path whose ExecutionResult.Reverse is a constructed operation; Change.Execute collects them and Document pushes them (O1.history); executeUndoRedo re-tickets restored array elements (Add, ArraySet) and tree content (TreeEdit) and reconciles the stacks with the new identity in the same branch",
 		Run: func(x *Ctx) {
